@@ -266,10 +266,33 @@ pub fn check_one(spec: &WSpec) -> Result<String, (String, String)> {
             return Err((format!("panic-read|{}||{nc}", p.file()), format!("parse_witness panicked on the printed text `{}`: {} ({})", text.replace('\n', " / "), p.msg, p.short_loc())));
         }
     };
-    match compare(spec, &got) {
-        None => Ok(text),
-        Some((c, m)) => Err((c, format!("{m}; text: `{}`", text.trim_end().replace('\n', " / ")))),
+    if let Some((c, m)) = compare(spec, &got) {
+        return Err((c, format!("{m}; text: `{}`", text.trim_end().replace('\n', " / "))));
     }
+    // environment answers of the sink and the source: short writes (print_witness into a sink that takes at most n
+    // bytes per call) and short reads (a buffered source that never holds more than n bytes) must change nothing
+    for n in pvcore::chunkio::CHUNKS {
+        let mut sink = pvcore::chunkio::ChunkWriter::new(n);
+        match catch(|| patronus::btor2::print_witness(&mut sink, &w)) {
+            Ok(Ok(())) => {}
+            Ok(Err(e)) => return Err(("short-write-error|||".into(), format!("print_witness returned an error on a sink that accepts {n} byte(s) per call: {e}"))),
+            Err(p) => return Err((format!("short-write-panic|{}||", p.file()), format!("print_witness panicked on a sink that accepts {n} byte(s) per call: {} ({})", p.msg, p.short_loc()))),
+        }
+        if sink.text() != text {
+            return Err(("short-write-text|||".into(), format!("print_witness into a sink that accepts {n} byte(s) per call wrote `{}` instead of `{}`", sink.text().trim_end().replace('\n', " / "), text.trim_end().replace('\n', " / "))));
+        }
+        let mut src = pvcore::chunkio::ChunkReader::new(text.as_bytes(), n);
+        match catch(|| parse_witness(&mut src)) {
+            Ok(Ok(g)) => {
+                if let Some((c, m)) = compare(spec, &g) {
+                    return Err((format!("short-read-{c}"), format!("read through a source that yields {n} byte(s) at a time: {m}; text: `{}`", text.trim_end().replace('\n', " / "))));
+                }
+            }
+            Ok(Err(e)) => return Err(("short-read-error|||".into(), format!("parse_witness returned an error when the source yields {n} byte(s) at a time: {e}"))),
+            Err(p) => return Err((format!("short-read-panic|{}||", p.file()), format!("parse_witness panicked when the source yields {n} byte(s) at a time: {} ({})", p.msg, p.short_loc()))),
+        }
+    }
+    Ok(text)
 }
 
 // ------------------------------------------------------------------ shrinking
